@@ -52,6 +52,7 @@ structure State where
   prods : List (List Elem)      -- producer t: the elements it still has to put (first = current op)
   pops  : Nat                   -- pops the consumer still has to perform
   -- ghost / observation
+  -- ghost: `enq`/`deq` start as `base` dummy entries so that list index = cursor value
   enq   : List Elem             -- successfully published elements in publication order
   deq   : List Elem             -- elements returned by the consumer, in order
   pres  : List (Nat × Res)      -- (producer, result) in completion order
@@ -62,7 +63,8 @@ structure State where
 def init (cap base : Nat) (prods : List (List Elem)) (pops : Nat) : State :=
   { cap, head := base, tail := base, ring := List.replicate cap default, crit := none,
     cons := { pc := .ldHead, h := 0, e := default }, prods, pops,
-    enq := [], deq := [], pres := [], cres := [], base }
+    enq := List.replicate base default, deq := List.replicate base default,
+    pres := [], cres := [], base }
 
 def State.idx (s : State) (i : Nat) : Nat := i % s.cap
 
